@@ -6,7 +6,7 @@ from fractions import Fraction
 from .index import AnalysisError, is_spawn, walk_no_nested
 from .paths import Frame, local_aliases
 
-COPY_FUNCS = {'list', 'sorted', 'copy', 'deepcopy', 'tuple', 'set', 'frozenset', 'dict'}
+COPY_FUNCS = {'list', 'sorted', 'copy', 'deepcopy', 'tuple', 'set', 'frozenset', 'dict', 'deque'}
 
 # Classes with exactly one instance per simulation (Simulation.__init__ builds
 # one of each; parse_buffer_config returns one hot and one cold tier).  A
@@ -692,7 +692,7 @@ _CMP = {ast.Eq: '==', ast.NotEq: '!=', ast.Lt: '<', ast.LtE: '<=', ast.Gt: '>',
         ast.GtE: '>=', ast.Is: 'is', ast.IsNot: 'is not', ast.In: 'in', ast.NotIn: 'not in'}
 
 
-ORDER_COPY = {'list', 'tuple', 'copy', 'deepcopy', 'dict'}
+ORDER_COPY = {'list', 'tuple', 'copy', 'deepcopy', 'dict', 'deque'}
 
 
 def copy_source(v, order=False):
@@ -725,7 +725,7 @@ def copy_source(v, order=False):
 # --------------------------------------------------------------------------
 # effects
 
-MUTATORS = {'append', 'remove', 'pop', 'insert', 'extend', 'clear', 'add',
+MUTATORS = {'append', 'remove', 'pop', 'insert', 'extend', 'clear', 'add', 'popleft', 'appendleft',
             'update', 'discard', 'popitem', 'setdefault', 'sort', 'reverse'}
 
 
@@ -839,7 +839,10 @@ def effects_of_event(canon, ev):
                 if isinstance(recv, (ast.Call, ast.ListComp, ast.List, ast.Dict, ast.Set)) or \
                         copy_source(recv) is not None:
                     loc = '<copy of %s>' % loc
-                out.append(Effect(n.func.attr, loc, arg, n, ev,
+                kind = n.func.attr
+                if kind == 'popleft':          # deque.popleft() is pop(0)
+                    kind, arg = 'pop', '0'
+                out.append(Effect(kind, loc, arg, n, ev,
                                   n.args[0] if n.args else None))
     return out
 
